@@ -65,6 +65,40 @@ CLAIMED = {
             "text depends on nothing else; every piece make_source concatenates is read at call time or via an "
             "mtime-guarded cache and reaches the result; need_reload covers the module file and its C sources.",
             "Trusted: CRC32 distinguishes the texts in play; mtimes advance on edit. Edit histories are not executed.", "C17"),
+    "C01": ("clang JSON AST rules on all generated kernels + Python layout/dominance/normal-form rules",
+            "Static, on all 61 generated translation units x 3 kernels: accumulator carry/reset pairing, VALID and strict "
+            "cutoff gates on every accumulation, per-level loop restart protocol; Python side: struct vs buffer layout, value "
+            "vector, strides, max_pd refusal dominating truncation, chunk tiling in 3 drivers, normal form of Fq/Iq with zero "
+            "guards, loop-slot guarantee for truncated distributions.",
+            "Trusted: clang's preprocessing equals the compiler's. Not decided: the numeric identity with the weighted mean.", "C01"),
+    "C05": ("symbolic interpretation of the rotation helpers (clang AST) vs jitter.py's matrices, polynomial identity in sympy",
+            "Static: rotation entries of qabc_rotation/qac_rotation equal the inverse of Rz Ry Rz Rx Ry Rz built from jitter.py; "
+            "view/jitter slots, |cos| weight, zero-centred jitter, orientation excluded from 1-D, |q| only for unoriented models, "
+            "in every unit.",
+            "Not decided: numeric invariance statements (they follow from the matrices).", "C05"),
+    "C06": ("symbolic interpretation of set_spin_weights/mag_sld (guards enumerated) + structural rules on Imagnetic kernels",
+            "Static: channel weights in both guard cases, effective SLD per channel (Halpern-Johnson, orthonormal frame), "
+            "channel loop and slot arithmetic in all 45 magnetic units, append order, polar->rectangular conversion, kernel "
+            "selection by the magnetic flag.",
+            "Not decided: equality with recombined non-magnetic evaluations.", "C06"),
+    "C07": ("affine layout algebra + normal forms + dominance on product.py",
+            "Static: every index/slice of ProductKernel equals the offset implied by make_product_info's assembly order as a "
+            "linear form (all P,S pairs, 8 mode combinations); combination formula in 4 guard cases; injections dominate the S "
+            "call; reported intermediates are the captured values; S guards precede table construction.",
+            "Not decided: numeric equality with separate P and S evaluations.", "C07"),
+    "C09": ("sibling cross-check: C writer (clang AST, all units) vs Python _loops vs reader; call-site/table agreement",
+            "Static: result layout three ways, volume tuple order, gates, call arguments of every model call in every unit "
+            "against the parameter table (order, arity) and against PyKernel's views; enumerated validations end in raise and "
+            "are reachable from make_model_info.",
+            "Not decided: equality of generated-plugin evaluations.", "C09"),
+    "C14": ("case-label exhaustiveness + symbolic eq-volume-sphere check on every unit's radius_effective",
+            "Static: mode list <-> case labels for all 30 models; every 'equivalent (outer) volume sphere' case satisfies "
+            "4/3 pi R^3 = form_volume as normal forms; F^2,F interleave writer vs reader; I uses the reported shell volume.",
+            "Not decided: 0 <= <F>^2 <= <F^2>, positivity, finiteness.", "C14"),
+    "C16": ("AST def-use on the macro generator + clang AST of a reparameterised witness unit + regex automaton",
+            "Static: all CALL_*/VALID macros built from base table through subs; witness unit: intermediates before VALID, VALID "
+            "guards every call in 3 kernels, qualified identifiers; _IDENT_RE language; ordered table derivation.",
+            "One witness reparameterisation (generator has no model-specific branch). Not decided: numeric equality with base.", "C16"),
 }
 
 NOT_APPLICABLE = {
